@@ -22,7 +22,10 @@
    between finds no entry: the completion is lost and the late entry blocks its queue.   *)
 EXTENDS MqttTopic, TLC, Json
 
-CONSTANTS MaxSteps, DevRegisterAfterWrite, DedupDispatch
+CONSTANTS MaxSteps, DevRegisterAfterWrite, DedupDispatch,
+          NoCb     \* numbers of the requests for which the application passes no completion callback (Publish(msg, nil)):
+                   \* they are registered, acknowledged and released like the others, there is just nothing to call - and
+                   \* that must not keep the callbacks of the requests released with them from being called
 
 VARIABLES nreq, q1, q2, sb, us, ping, tree, p2in, half, wire, done, disp, last, prev, steps, hist
 abs == <<nreq, q1, q2, sb, us, ping, tree, p2in, half>>
@@ -47,6 +50,7 @@ JoinAll(fs) == [i \in 1..Len(fs) |-> Join(fs[i])]
 
 -----------------------------------------------------------------------------
 (* application calls *)
+Fires(s) == SelectSeq(s, LAMBDA r : r \notin NoCb)     \* the completions that can be observed
 Entry(r) == [r |-> r, st |-> "none", codes |-> <<>>, fs |-> <<>>]
 
 \* the two halves of a sending call when the deviation is modelled
@@ -60,14 +64,14 @@ AppPublish(q) ==
   /\ nreq' = nreq + 1
   /\ wire' = <<[Pk("PUBLISH", nreq + 1, q) EXCEPT !.t = "t/app"]>>
   /\ IF q = 0
-       THEN /\ done' = <<nreq + 1>> /\ UNCHANGED <<q1, q2, sb, us, half>>
+       THEN /\ done' = Fires(<<nreq + 1>>) /\ UNCHANGED <<q1, q2, sb, us, half>>
        ELSE /\ done' = <<>>
             /\ IF DevRegisterAfterWrite
                  THEN /\ half' = [on |-> TRUE, kind |-> IF q = 1 THEN "pub1" ELSE "pub2", r |-> nreq + 1, fs |-> <<>>]
                       /\ UNCHANGED <<q1, q2, sb, us>>
                  ELSE /\ Reg(IF q = 1 THEN "pub1" ELSE "pub2", Entry(nreq + 1)) /\ UNCHANGED half
   /\ disp' = {} /\ UNCHANGED <<ping, tree, p2in>>
-  /\ Log([a |-> "apppublish", q |-> q, r |-> nreq + 1])
+  /\ Log([a |-> "apppublish", q |-> q, r |-> nreq + 1, cb |-> (nreq + 1) \notin NoCb])
 
 AppSubscribe(fs) ==
   /\ ~half.on
@@ -113,7 +117,7 @@ Rs(q, n) == [i \in 1..n |-> q[i].r]
 
 PeerPuback(r) ==
   /\ LET m == Mark(q1, r, "PUBACK", <<>>)  n == NTerm(m, {"PUBACK"}) IN
-       /\ q1' = SubSeq(m, n + 1, Len(m)) /\ done' = Rs(m, n)
+       /\ q1' = SubSeq(m, n + 1, Len(m)) /\ done' = Fires(Rs(m, n))
   /\ wire' = <<>> /\ disp' = {} /\ UNCHANGED <<nreq, q2, sb, us, ping, tree, p2in, half>>
   /\ Log([a |-> "peerack", ty |-> "PUBACK", r |-> r])
 
@@ -126,7 +130,7 @@ PeerPubrec(r) ==
 
 PeerPubcomp(r) ==
   /\ LET m == Mark(q2, r, "PUBCOMP", <<>>)  n == NTerm(m, {"PUBCOMP"}) IN
-       /\ q2' = SubSeq(m, n + 1, Len(m)) /\ done' = Rs(m, n)
+       /\ q2' = SubSeq(m, n + 1, Len(m)) /\ done' = Fires(Rs(m, n))
   /\ wire' = <<>> /\ disp' = {} /\ UNCHANGED <<nreq, q1, sb, us, ping, tree, p2in, half>>
   /\ Log([a |-> "peerack", ty |-> "PUBCOMP", r |-> r])
 
